@@ -234,3 +234,9 @@ Theorem vtt_open_is_events : forall st, vtt_open st = concat (map render_tag (vt
 Proof. intros [[] [] [] c]; reflexivity. Qed.
 Theorem vtt_close_is_events : forall st, vtt_close st = concat (map render_tag (vtt_close_evs st)).
 Proof. intros [[] [] [] c]; reflexivity. Qed.
+
+(* a node list used by the non-vacuity examples of props/C11.v *)
+Definition ex_nodes : list node :=
+  [NStyle true (mkStyle true true false None); NText (lit "a b"); NBreak; NText (lit "c"); NStyle false (mkStyle true true false None);
+   NText (lit " d "); NStyle true (mkStyle false false true None); NStyle false (mkStyle false false true None)].
+
